@@ -3,6 +3,7 @@ package props
 import (
 	"verif/sa/internal/e5path"
 	"verif/sa/internal/e8grammar"
+	"verif/sa/internal/e9pos"
 	"verif/sa/internal/load"
 	"verif/sa/internal/oblig"
 )
@@ -42,5 +43,9 @@ func runC09(r *oblig.Report) {
 	e5path.ErrorsVoidResult(c.P, r, "R5.1", c.Entry("transformer.TransformDSLToProto"))
 	e5path.ErrorsVoidResult(c.P, r, "R5.1", c.Entry("transformer.TransformModularDSLToProto"))
 	e5path.ListenerWiring(c.P, r, "R5.2")
+	// the whole document reaches the parser: a pre-pass that drops lines (or the rest of the text) lets a violation
+	// behind the cut pass unseen (shared with C03/C16)
+	r.Rule("R9.1", "instance-table", "the pre-pass hands the parser one cleaned line per input line, each a prefix of its line", 6)
+	e9pos.PrePassShape(c.P, r, "R9.1")
 	e5path.SyntaxErrorAlwaysRecords(c.P, r, "R5.2")
 }
